@@ -588,6 +588,14 @@ def check_iteration_order_agreement(repo, chk, prefixes, rule="O-iter"):
         for cls in m.all_classes:
             sites = {}
             for mm in cls.methods.values():
+                alias_ = {}
+                for st_ in _walk_fn(mm.node):
+                    if isinstance(st_, ast.Assign) and len(st_.targets) == 1 and isinstance(st_.targets[0], ast.Name) and isinstance(st_.value, ast.Attribute) and isinstance(st_.value.value, ast.Name) and st_.value.value.id == "self":
+                        alias_[st_.targets[0].id] = st_.value.attr
+                    # a chain derived from the attribute by a parameterless method of it (renamed copy in the same order)
+                    if (isinstance(st_, ast.Assign) and len(st_.targets) == 1 and isinstance(st_.targets[0], ast.Name) and isinstance(st_.value, ast.Call) and not st_.value.args and not st_.value.keywords
+                            and isinstance(st_.value.func, ast.Attribute) and isinstance(st_.value.func.value, ast.Attribute) and isinstance(st_.value.func.value.value, ast.Name) and st_.value.func.value.value.id == "self"):
+                        alias_[st_.targets[0].id] = st_.value.func.value.attr
                 for x in _walk_fn(mm.node):
                     it = None
                     if isinstance(x, (ast.For, ast.comprehension)):
@@ -596,7 +604,18 @@ def check_iteration_order_agreement(repo, chk, prefixes, rule="O-iter"):
                         continue
                     kind = "plain"
                     core = it
-                    for _ in range(4):
+                    for _ in range(5):
+                        if isinstance(core, ast.Subscript) and isinstance(core.slice, ast.Slice):
+                            step = core.slice.step
+                            if step is not None and norm_text(step).replace(" ", "") in ("-1",):
+                                kind = kind + "-reversed"
+                            core = core.value
+                            continue
+                        if isinstance(core, ast.Call) and isinstance(core.func, ast.Attribute) and core.func.attr not in ("items", "keys", "values", "copy") and not core.args and isinstance(core.func.value, (ast.Attribute, ast.Name)):
+                            # a traversal method of the object itself: chain.depth_first()
+                            kind = core.func.attr + "()"
+                            core = core.func.value
+                            continue
                         if isinstance(core, ast.Call) and isinstance(core.func, ast.Name) and core.func.id in ("enumerate", "list", "tuple", "reversed", "zip") and core.args:
                             core = core.args[0] if core.func.id != "zip" else next((a_ for a_ in core.args if "self." in norm_text(a_)), core.args[0])
                         elif isinstance(core, ast.Call) and isinstance(core.func, ast.Name) and core.func.id == "sorted" and core.args:
@@ -606,6 +625,8 @@ def check_iteration_order_agreement(repo, chk, prefixes, rule="O-iter"):
                             core = core.func.value
                         else:
                             break
+                    if isinstance(core, ast.Name) and core.id in alias_:
+                        sites.setdefault(alias_[core.id], []).append((kind, mm, x))
                     if isinstance(core, ast.Attribute) and isinstance(core.value, ast.Name) and core.value.id == "self":
                         sites.setdefault(core.attr, []).append((kind, mm, x))
             for attr, ss in sorted(sites.items()):
@@ -617,7 +638,8 @@ def check_iteration_order_agreement(repo, chk, prefixes, rule="O-iter"):
                 ok = len(kinds) == 1
                 chk.instance(rule, "%s.%s traversed in %d methods (%s): order %s" % (cls.name, attr, len(meths), ", ".join(sorted(meths))[:80], "/".join(sorted(kinds))), nontrivial=not ok)
                 if not ok:
-                    s_ = next(z for z in ss if z[0] == "sorted")
-                    p_ = next(z for z in ss if z[0] == "plain")
-                    chk.violation(rule, s_[1].key, "order:%s" % attr, "%s traverses self.%s in sorted order while %s traverses it in insertion order: results paired by position belong to different entries unless the keys happen to be listed alphabetically" % (s_[1].qual, attr, p_[1].qual), file=rel, line=getattr(s_[2], "lineno", s_[1].lineno) if hasattr(s_[2], "lineno") else s_[1].lineno)
+                    major = max(kinds, key=lambda k_: sum(1 for z in ss if z[0] == k_))
+                    s_ = next(z for z in ss if z[0] != major)
+                    p_ = next(z for z in ss if z[0] == major)
+                    chk.violation(rule, s_[1].key, "order:%s" % attr, ("%s traverses self.%s in `" + s_[0] + "` order while %s traverses it in `" + p_[0] + "` order: results paired by position belong to different entries unless the two orders happen to coincide") % (s_[1].qual, attr, p_[1].qual), file=rel, line=getattr(s_[2], "lineno", s_[1].lineno) if hasattr(s_[2], "lineno") else s_[1].lineno)
     chk.instance(rule, "%d (class, attribute) pairs traversed by several methods under %s" % (n_attr, ", ".join(prefixes)), nontrivial=False)
